@@ -75,7 +75,7 @@ func sameType(x, y types.Type) bool {
 	if x == nil {
 		return y == nil
 	}
-	return y != nil && types.Identical(x, y)
+	return y != nil && identical(x, y)
 }
 
 // ---------------------------------------------------------------------
@@ -196,6 +196,9 @@ func (ex *exec) checkHashable(k value) {
 		if k.t == nil {
 			return
 		}
+		if _, isFake := k.t.(*fakeType); isFake {
+			return
+		}
 		if !types.Comparable(k.t) {
 			panic(runtimeError("hash of unhashable type " + typeString(k.t)))
 		}
@@ -266,11 +269,14 @@ func (ex *exec) eqTerm(t types.Type, x, y value) *Term {
 		return r
 	case iface:
 		y := y.(iface)
-		if !sameType(x.t, y.t) {
+		if (x.t == nil) != (y.t == nil) || (x.t != nil && !identical(x.t, y.t)) {
 			return tt.Bool(false)
 		}
 		if x.t == nil {
 			return tt.Bool(true)
+		}
+		if _, isFake := x.t.(*fakeType); isFake {
+			return ex.eqTerm(x.t, x.v, y.v)
 		}
 		if !types.Comparable(x.t) {
 			panic(runtimeError("comparing uncomparable type " + typeString(x.t)))
